@@ -567,7 +567,7 @@ def collect_hints(
                 champions = addition.get_champion(label) + deletion.get_champion(label)
                 if not champions:
                     print_fail(f"Unmatched closing hint {m.groups()} on line {i}.")
-                max(champions)[1].close_hint(label, i)
+                max(champions, key=lambda champion: champion[0])[1].close_hint(label, i)
     addition.ensure_stack_is_empty()
     deletion.ensure_stack_is_empty()
     return (addition.get_result(), deletion.get_result())
